@@ -45,7 +45,10 @@ class Layout:
         return proj
 
 
-def generate(rng, hostile=False, regimes=("lf", "crlf", "cr", "mixed"), max_files=5, max_pats=4, shared=0.5, glob=0.15, partial=0.3, legacy=False):
+def generate(rng, hostile=False, regimes=("lf", "crlf", "cr", "mixed"), max_files=5, max_pats=4, shared=0.5, glob=0.15, partial=0.3, legacy=False,
+             stale=0.0, only_partial=0.0):
+    """stale: probability that a file still shows an OLDER version (as after a branch switch or a missed update);
+    only_partial: probability that a file carries partial patterns only (copyright year, MAJOR.MINOR)"""
     from bumpver import v2version
     lay = Layout()
     lay.vp = rng.choice(VERSION_PATTERNS)
@@ -56,6 +59,9 @@ def generate(rng, hostile=False, regimes=("lf", "crlf", "cr", "mixed"), max_file
     old = v2version.format_version(vinfo, lay.vp)
     vinfo = v2version.parse_version_info(old, lay.vp)
     lay.old_version = old
+    stale_vinfo = glue.make_vinfo(date - dt.timedelta(days=400), major=max(0, vinfo.major - 1), minor=vinfo.minor + 1, patch=1, bid="1000", tag="final", num=0, inc0=0)
+    stale_text = v2version.format_version(stale_vinfo, lay.vp)
+    stale_vinfo = v2version.parse_version_info(stale_text, lay.vp) if stale_text else vinfo
     lay.date = date
     lay.newdate = date + dt.timedelta(days=rng.choice([0, 1, 40, 400]))
     f = []
@@ -69,6 +75,10 @@ def generate(rng, hostile=False, regimes=("lf", "crlf", "cr", "mixed"), max_file
     names = ["README.md", "src/pkg/__init__.py", "setup.py", "docs/conf.py", "CHANGES.txt"][:n_files]
     for fi, name in enumerate(names):
         raws = rng.sample(RAW_FULL, rng.randrange(1, max_pats + 1))
+        partial_cands = [c for part, cands in RAW_PARTIAL.items() if part in lay.vp for c in cands]
+        if partial_cands and rng.random() < only_partial:
+            raws = rng.sample(partial_cands, rng.randrange(1, min(2, len(partial_cands)) + 1))
+        file_vinfo = stale_vinfo if rng.random() < stale else vinfo
         for part, cands in RAW_PARTIAL.items():
             if part in lay.vp and rng.random() < partial and len(raws) < max_pats:
                 raws.append(rng.choice(cands))
@@ -81,7 +91,7 @@ def generate(rng, hostile=False, regimes=("lf", "crlf", "cr", "mixed"), max_file
         lines = [[(rng.choice(fill), None)] for _ in range(rng.randrange(1, 8))]
         for pi, raw in enumerate(raws):
             for _ in range(rng.choice([1, 1, 2])):
-                text = render_old(lay.vp, raw, vinfo)
+                text = render_old(lay.vp, raw, file_vinfo)
                 if not text:
                     continue
                 if raw.startswith("^"):
